@@ -113,3 +113,25 @@ def colliding_names(rng, RP):
     if set(gm.values()) & set(RP[1]):
         return None
     return pd.make([qm[q] for q in RP[0]], RP[1], [gm[x] for x in RP[2]], [(qm[p], a, g(u), qm[q], g(v)) for (p, a, u, q, v) in RP[3]], qm[RP[4]], [qm[q] for q in RP[5]])
+
+
+def helper_names_with_gaps(rng, RP):
+    """state names that look like the helper states of the normal-form constructions, with gaps in the numbering
+    (M2 without M1, q_accept2 without q_accept1, ...)"""
+    pool = ['M2', 'M3', 'M5', 'q_accept2', 'q_accept3', 'q_drain2', 'q_initial2', 'q_initial3', 'M1', 'q0']
+    rng.shuffle(pool)
+    if len(RP[0]) > len(pool):
+        return None
+    return rename(RP, dict(zip(RP[0], pool[:len(RP[0])])))
+
+
+def multichar_stack_symbols(rng, RP):
+    """the same PDA with multi-character stack symbols that contain each other (Z0 / Z / ZZ): legal for PDA objects
+    built directly (Sipser style bottom marker Z0), not expressible in the text format"""
+    pools = [['Z0', 'Z', 'ZZ'], ['A', 'AB', 'B'], ['$', '$$', '$1']]
+    syms = rng.choice(pools)
+    if len(RP[2]) > len(syms) or set(syms) & set(RP[1]):
+        return None
+    gm = dict(zip(RP[2], syms))
+    g = lambda x: None if x is None else gm[x]
+    return pd.make(RP[0], RP[1], [gm[x] for x in RP[2]], [(p, a, g(u), q, g(v)) for (p, a, u, q, v) in RP[3]], RP[4], RP[5])
